@@ -38,7 +38,7 @@ func (g *genState) tree(depth int, focus string) sx.Tree {
 	}
 	if r.Chance(hp) {
 		g.nextID++
-		h = sx.T(sx.Ints(g.nextID, int64(sx.Pick(r, 0, 0, 2)), int64(sx.Pick(r, 1, 1, 2)), int64(sx.Pick(r, 1, 1, 2)), b2i(r.Chance(30))))
+		h = sx.T(sx.Ints(g.nextID, int64(sx.Pick(r, 0, 0, 2)), int64(sx.Pick(r, 1, 1, 2, 3)), int64(sx.Pick(r, 1, 1, 2)), b2i(r.Chance(30))))
 	}
 	return sx.T(sx.L(id), sx.L(kind), sx.L(workers), sx.L(buf), sx.B(disabled), sx.B(disc), sx.T(kids...), h)
 }
@@ -50,8 +50,49 @@ func b2i(b bool) int64 {
 	return 0
 }
 
+// netLen is the number of rows of the running table (enabled nodes and their handlers).
+func netLen(cfgs []sx.Tree) int {
+	n := 0
+	var walk func(t sx.Tree)
+	walk = func(t sx.Tree) {
+		if t.At(4).Bool() {
+			return
+		}
+		n++
+		if t.At(7).Len() == 1 {
+			n++
+		}
+		for _, k := range t.At(6).Kids {
+			walk(k)
+		}
+	}
+	for _, c := range cfgs {
+		walk(c)
+	}
+	return n
+}
+
+// comb: one fast multi-worker root feeding several small discarding children (many concurrent producers per
+// discarding buffer: the situation in which "discard" must stay atomic with "full")
+func comb(r *sx.Rng) (sx.Tree, []sx.Tree) {
+	kids := []sx.Tree{}
+	stall := []sx.Tree{}
+	nk := int(r.Range(3, 7))
+	for i := 0; i < nk; i++ {
+		id := int64(10 + i)
+		kids = append(kids, sx.T(sx.L(id), sx.L(0), sx.L(1), sx.L(r.Range(1, 2)), sx.B(false), sx.B(true), sx.T(), sx.T()))
+		stall = append(stall, sx.L(id))
+	}
+	root := sx.T(sx.L(1), sx.L(1), sx.L(r.Range(3, 4)), sx.L(r.Range(1, 3)), sx.B(false), sx.B(false), sx.T(kids...), sx.T())
+	return root, stall
+}
+
 // Gen generates one case; the mix of lockstep / free-running and the scenario shapes depend on the focus.
 func Gen(r *sx.Rng, idx int, focus string) sx.Tree {
+	if (focus == "C04" && r.Chance(25)) || (focus != "C04" && r.Chance(3)) {
+		root, stall := comb(r)
+		return sx.T(sx.L(0), sx.L(2), sx.T(root), sx.T(sx.L(int64(r.Next()>>8)), sx.Ints(r.Range(150, 500), 1)), sx.T(stall...))
+	}
 	g := &genState{r: r}
 	nroots := sx.Pick(r, 1, 1, 1, 2)
 	cfgs := []sx.Tree{}
@@ -119,6 +160,19 @@ func Gen(r *sx.Rng, idx int, focus string) sx.Tree {
 		for pass := 0; pass < 4; pass++ {
 			for n := int64(0); n < 14; n++ {
 				ints = append(ints, sx.Ints(2, n, 0, int64(sx.Pick(r, 0, 0, 1, 2, 3)), r.Range(0, 7)))
+				ints = append(ints, sx.Ints(3, n, 0, int64(sx.Pick(r, 0, 1, 2)), r.Range(0, 7)))
+			}
+		}
+	} else if r.Chance(60) {
+		// everybody finishes except one stalled row: the cascade completes around it
+		nl := int64(netLen(cfgs))
+		st := r.Range(0, nl)
+		for pass := 0; pass < 4; pass++ {
+			for n := int64(0); n < nl; n++ {
+				if n == st {
+					continue
+				}
+				ints = append(ints, sx.Ints(2, n, 0, int64(sx.Pick(r, 0, 1, 2, 3)), r.Range(0, 7)))
 				ints = append(ints, sx.Ints(3, n, 0, int64(sx.Pick(r, 0, 1, 2)), r.Range(0, 7)))
 			}
 		}
